@@ -99,6 +99,12 @@ CLAIMED = {
     "C42": ("exploration",
             "Token worlds where every denomination in play gets a generous rate limit on the channels it moves over, so every movement is charged: the (denomination, channel) whose flow moved must be the one whose bank movement the ICS-20 model predicts (escrow/burn on send, mint/unescrow on receive), same amount, for natives, '/'-named natives, multi-hop vouchers and unwinding paths over v1/alias/v2.",
             "deterministic simulation: rate-limit flow diff vs ICS-20 bank-movement model per committed transfer", "8 C42"),
+    "C44": ("exploration",
+            "Core and token worlds (v1 ordered/unordered channels, v2 clients, v2-over-alias traffic, localhost, ICS-20 vouchers, rate limits, async packets, packets in every lifecycle state) in which a chain is hard-restarted at seeded points through genesis export/import (ModuleManager.ExportGenesis -> fresh application, InitialHeight = height+1) and the world continues on the restarted chain. The complete content of the ibc, transfer, ratelimiting, packetforward, icacontroller, icahost and gmp stores after the import must equal the content before the export, key by key; re-export must equal export. Genuine defects found here are listed in known_findings.json (alias-keyed v2 state dropped; import refuses equal client ids) and reported as KNOWN-FINDING; any other lost key is a violation.",
+            "deterministic simulation: genesis export/import restart injected at seeded points of live histories, store-census equality oracle", "8 C44"),
+    "C45": ("exploration",
+            "Histories from the core, token, handshake and client worlds — with node restarts, lost commits (crash between FinalizeBlock and Commit, same block re-proposed) and genesis restarts — are executed in one OS process at GOMAXPROCS=1 and re-executed from the recorded operation list in a second fresh process at GOMAXPROCS=16 (new Go map seed): app hash after every block of every chain, per-module hashes of the exported genesis and module-ordered list queries must be identical; a block re-executed after a lost commit must give the same app hash.",
+            "deterministic simulation: same recorded history replayed across processes / thread counts / map seeds and across crash-restart points, digest comparison", "8 C45"),
     "C49": ("exploration",
             "Token worlds with relays submitted by arbitrary accounts: per block every non-module account whose balance decreased signed a transaction of that block; credits from receive/ack/timeout go only to the packet's receiver or refund its original sender (bank diff vs model).",
             "deterministic simulation: per-block debit attribution against transaction signers + ICS-20 model", "8 C49"),
